@@ -178,7 +178,8 @@ class Data2D(Block):
             and self.flags == o.flags
             and np.array_equal(self._camMap, o._camMap)
             and all(
-                np.array_equal(self.data[i, j], o.data[i, j])
+                (self.data[i, j] is None and o.data[i, j] is None)
+                or np.array_equal(self.data[i, j], o.data[i, j], equal_nan=True)
                 for i in range(self.nFrames)
                 for j in range(self.nCams)
             )
